@@ -21,7 +21,9 @@ import (
 	"fmt"
 	"io"
 	"net"
+	"runtime"
 	"sync"
+	"sync/atomic"
 	"testing"
 	"time"
 )
@@ -334,6 +336,390 @@ func TestVerifC09(t *testing.T) {
 		case <-time.After(60 * time.Second):
 			_ = enc.Encode(vsObs{"id": rq.ID, "st": "watchdog"})
 		}
+		w.Flush()
+	}
+}
+
+// ------------------------------------------------------------------ overlapping Close calls (TestVerifC09Race)
+//
+// "closing again reports 'already closed' instead of panicking" also when the calls OVERLAP. N goroutines are
+// released together (spin barrier) and call Close on a fresh Client: exactly one returns nil, the others an error
+// of the ErrClientClosed class, nobody panics. Mode "connected": a served 1.0.1 connection fails (the peer closes:
+// Connect's own `_ = c.Close()` and its deferred Close) at the moment the owner calls Close (several times) and
+// Shutdown. Many rounds for a given number of milliseconds. Panics are recovered in the calling goroutines and
+// reported; the check runs this test in a process of its own so that even a crash is attributed.
+
+type c09RaceReq struct {
+	ID     string `json:"id"`
+	Mode   string `json:"mode"` // fresh | connected
+	N      int    `json:"n"`
+	Millis int    `json:"millis"`
+}
+
+func c09RaceRun(rq c09RaceReq) vsObs {
+	out := vsObs{"id": rq.ID, "mode": rq.Mode}
+	var mu sync.Mutex
+	var panics, bad []string
+	note := func(l *[]string, s string) {
+		mu.Lock()
+		if len(*l) < 5 {
+			*l = append(*l, s)
+		}
+		mu.Unlock()
+	}
+	npanic, nbad := 0, 0
+	rounds := 0
+	deadline := time.Now().Add(time.Duration(rq.Millis) * time.Millisecond)
+	n := rq.N
+	if n < 2 {
+		n = 2
+	}
+	for time.Now().Before(deadline) {
+		rounds++
+		c := NewClient(WithLogger(nil), WithVersion(Version1_0_1))
+		var start int32
+		res := make([]string, n)
+		var wg sync.WaitGroup
+		guard := func(what string) {
+			if r := recover(); r != nil {
+				mu.Lock()
+				npanic++
+				mu.Unlock()
+				note(&panics, fmt.Sprint(what, ": ", r))
+			}
+		}
+		var peer net.Conn
+		connDone := make(chan string, 1)
+		if rq.Mode == "connected" {
+			var cli net.Conn
+			cli, peer = net.Pipe()
+			go func() {
+				defer func() {
+					if r := recover(); r != nil {
+						mu.Lock()
+						npanic++
+						mu.Unlock()
+						note(&panics, fmt.Sprint("Connect: ", r))
+						connDone <- "panic"
+					}
+				}()
+				connDone <- vsClassify(c.Connect(cli))
+			}()
+			b := (&vsPl{K: "conn"}).bytes()
+			_ = peer.SetDeadline(time.Now().Add(2 * time.Second))
+			if _, err := peer.Write(vsBuildFrame(1, int(MsgReaderEventNotification), 0, uint32(10+len(b)), b)); err != nil {
+				note(&bad, "first frame: "+err.Error())
+				break
+			}
+			select {
+			case <-c.ready:
+			case <-time.After(2 * time.Second):
+				note(&bad, "client never became ready")
+			}
+		}
+		for i := 0; i < n; i++ {
+			wg.Add(1)
+			go func(i int) {
+				defer wg.Done()
+				res[i] = "panic"
+				defer guard("Close")
+				for atomic.LoadInt32(&start) == 0 {
+				}
+				res[i] = vsClassify(c.Close())
+			}(i)
+		}
+		shut := "none"
+		if rq.Mode == "connected" {
+			wg.Add(2)
+			go func() {
+				defer wg.Done()
+				for atomic.LoadInt32(&start) == 0 {
+				}
+				_ = peer.Close() // the connection fails: Connect closes the client itself
+			}()
+			go func() {
+				defer wg.Done()
+				defer guard("Shutdown")
+				for atomic.LoadInt32(&start) == 0 {
+				}
+				ctx, cancel := context.WithTimeout(context.Background(), 300*time.Millisecond)
+				defer cancel()
+				shut = vsClassify(c.Shutdown(ctx))
+			}()
+		}
+		runtime.Gosched()
+		atomic.StoreInt32(&start, 1)
+		wg.Wait()
+		nils := 0
+		for _, r := range res {
+			switch r {
+			case "nil":
+				nils++
+			case "closed":
+			default:
+				nbad++
+				note(&bad, fmt.Sprintf("round %d: a Close call returned class %s", rounds, r))
+			}
+		}
+		if rq.Mode == "fresh" && nils != 1 {
+			nbad++
+			note(&bad, fmt.Sprintf("round %d: %d of %d overlapping Close calls returned nil", rounds, nils, n))
+		}
+		if rq.Mode == "connected" {
+			if nils > 1 {
+				nbad++
+				note(&bad, fmt.Sprintf("round %d: %d overlapping Close calls returned nil", rounds, nils))
+			}
+			select {
+			case r := <-connDone:
+				if r == "nil" || r == "panic" {
+					nbad++
+					note(&bad, fmt.Sprintf("round %d: Connect returned %s", rounds, r))
+				}
+			case <-time.After(3 * time.Second):
+				nbad++
+				note(&bad, fmt.Sprintf("round %d: Connect did not return", rounds))
+			}
+			_ = shut
+		}
+	}
+	out["rounds"] = rounds
+	out["n"] = n
+	out["npanic"] = npanic
+	out["nbad"] = nbad
+	out["panics"] = panics
+	out["bad"] = bad
+	return out
+}
+
+func TestVerifC09Race(t *testing.T) {
+	lines, w, done := verifIO(t)
+	defer done()
+	enc := json.NewEncoder(w)
+	for _, line := range lines {
+		var rq c09RaceReq
+		if err := json.Unmarshal([]byte(line), &rq); err != nil {
+			_ = enc.Encode(vsObs{"error": "bad request: " + err.Error()})
+			continue
+		}
+		_ = enc.Encode(c09RaceRun(rq))
+		w.Flush()
+	}
+}
+
+// ------------------------------------------------------------------ a reader that never goes quiet (TestVerifC09Stream)
+//
+// The peer answers requests and, from its first message on, keeps sending reader-initiated frames (KeepAlive, ROAccessReport)
+// every period_us; it NEVER closes the connection. Local Close / Shutdown / cancellation happen while the stream flows. Since
+// the process never becomes quiescent here, the verdict uses a time budget: every call must have returned within budget_ms.
+
+type c09StreamReq struct {
+	ID       string `json:"id"`
+	Version  int    `json:"version"`
+	Scenario string `json:"scenario"` // close | shutdown | cancel | close-unanswered-negotiation
+	PeriodUs int    `json:"period_us"`
+	BudgetMs int    `json:"budget_ms"`
+}
+
+func c09StreamRun(rq c09StreamReq) vsObs {
+	out := vsObs{"id": rq.ID, "scenario": rq.Scenario}
+	budget := time.Duration(rq.BudgetMs) * time.Millisecond
+	period := time.Duration(rq.PeriodUs) * time.Microsecond
+	var pmu sync.Mutex
+	var panics []string
+	guard := func(what string) {
+		if r := recover(); r != nil {
+			pmu.Lock()
+			panics = append(panics, fmt.Sprint(what, ": ", r))
+			pmu.Unlock()
+		}
+	}
+	opts := []ClientOpt{WithLogger(nil)}
+	ver := 2
+	if rq.Version == 1 {
+		opts = append(opts, WithVersion(Version1_0_1))
+		ver = 1
+	}
+	c := NewClient(opts...)
+	cli, peer := net.Pipe()
+	connRes := make(chan string, 1)
+	go func() {
+		defer guard("Connect")
+		connRes <- vsClassify(c.Connect(cli))
+	}()
+
+	// ---- the peer
+	var wmu sync.Mutex
+	stop := make(chan struct{})
+	var streamed, acks int64
+	write := func(typ int, id uint32, pl []byte) error {
+		wmu.Lock()
+		defer wmu.Unlock()
+		_ = peer.SetWriteDeadline(time.Now().Add(300 * time.Millisecond))
+		_, err := peer.Write(vsBuildFrame(ver, typ, id, uint32(10+len(pl)), pl))
+		return err
+	}
+	var pwg sync.WaitGroup
+	pwg.Add(2)
+	go func() { // reads and answers
+		defer pwg.Done()
+		hb := make([]byte, 10)
+		for {
+			_ = peer.SetReadDeadline(time.Now().Add(4 * budget))
+			if _, err := io.ReadFull(peer, hb); err != nil {
+				return
+			}
+			h := vsParseHeader(hb)
+			if h.LenField < 10 {
+				return
+			}
+			pl := make([]byte, h.LenField-10)
+			if _, err := io.ReadFull(peer, pl); err != nil {
+				return
+			}
+			switch h.Typ {
+			case int(MsgKeepAliveAck):
+				atomic.AddInt64(&acks, 1)
+			case int(MsgGetSupportedVersion):
+				if rq.Scenario != "close-unanswered-negotiation" {
+					_ = write(int(MsgGetSupportedVersionResponse), h.ID, (&vsPl{K: "gsvr", Cur: 2, Max: 2}).bytes())
+				}
+			case int(MsgSetProtocolVersion):
+				_ = write(int(MsgSetProtocolVersionResponse), h.ID, vsStatusTLV(0))
+			case int(MsgCloseConnection):
+				_ = write(int(MsgCloseConnectionResponse), h.ID, vsStatusTLV(0))
+			case 21: // never answered
+			default:
+				_ = write((h.Typ+10)%1024, h.ID, vsPayload(5, uint64(h.ID)+900))
+			}
+		}
+	}()
+	b := (&vsPl{K: "conn"}).bytes()
+	wmu.Lock()
+	_ = peer.SetWriteDeadline(time.Now().Add(budget))
+	_, ferr := peer.Write(vsBuildFrame(ver, int(MsgReaderEventNotification), 0, uint32(10+len(b)), b))
+	wmu.Unlock()
+	if ferr != nil {
+		out["error"] = "first frame: " + ferr.Error()
+	}
+	go func() { // the stream
+		defer pwg.Done()
+		for i := uint32(1); ; i++ {
+			select {
+			case <-stop:
+				return
+			case <-time.After(period):
+			}
+			var err error
+			if i%3 == 0 {
+				err = write(int(MsgROAccessReport), 5000+i, vsPayload(24, uint64(i)))
+			} else {
+				err = write(int(MsgKeepAlive), 5000+i, nil)
+			}
+			if err != nil {
+				// the client does not read any more (both loops gone): keep trying slowly, never hang up
+				select {
+				case <-stop:
+					return
+				case <-time.After(10 * time.Millisecond):
+				}
+				continue
+			}
+			atomic.AddInt64(&streamed, 1)
+		}
+	}()
+
+	// ---- callers
+	type call struct {
+		done chan string
+	}
+	start := func(ctx context.Context, typ int) *call {
+		cl := &call{done: make(chan string, 1)}
+		go func() {
+			defer guard(fmt.Sprint("caller typ ", typ))
+			_, _, err := c.SendMessage(ctx, MessageType(typ), vsPayload(6, uint64(typ)))
+			if err == nil {
+				cl.done <- "ok"
+			} else {
+				cl.done <- vsClassify(err)
+			}
+		}()
+		return cl
+	}
+	wait := func(ch chan string) string {
+		select {
+		case r := <-ch:
+			return r
+		case <-time.After(budget):
+			return "stuck"
+		}
+	}
+	callers := vsObs{}
+	bg := context.Background()
+	t0 := time.Now()
+	switch rq.Scenario {
+	case "close":
+		callers["served"] = wait(start(bg, 20).done)
+		inflight := start(bg, 21)
+		time.Sleep(10 * period)
+		func() { defer guard("Close"); out["close"] = vsClassify(c.Close()) }()
+		t0 = time.Now()
+		callers["inflight"] = wait(inflight.done)
+	case "shutdown":
+		callers["served"] = wait(start(bg, 20).done)
+		time.Sleep(10 * period)
+		sd := make(chan string, 1)
+		go func() { defer guard("Shutdown"); sd <- vsClassify(c.Shutdown(bg)) }()
+		t0 = time.Now()
+		callers["shutdown"] = wait(sd)
+	case "cancel":
+		ctx, cancel := context.WithCancel(bg)
+		inflight := start(ctx, 21)
+		callers["served"] = wait(start(bg, 22).done)
+		time.Sleep(5 * period)
+		cancel()
+		callers["cancelled"] = wait(inflight.done)
+		callers["after"] = wait(start(bg, 23).done)
+		func() { defer guard("Close"); out["close"] = vsClassify(c.Close()) }()
+		t0 = time.Now()
+	case "close-unanswered-negotiation":
+		gate := start(bg, 20)
+		time.Sleep(10 * period)
+		func() { defer guard("Close"); out["close"] = vsClassify(c.Close()) }()
+		t0 = time.Now()
+		callers["at-gate"] = wait(gate.done)
+	}
+	out["connect"] = wait(connRes)
+	out["connect_ms"] = time.Since(t0).Milliseconds()
+	out["callers"] = callers
+	out["streamed"] = atomic.LoadInt64(&streamed)
+	out["acks"] = atomic.LoadInt64(&acks)
+	func() { defer guard("Close again"); out["close_again"] = vsClassify(c.Close()) }()
+
+	// ---- cleanup (only now does anybody hang up)
+	close(stop)
+	_ = cli.Close()
+	_ = peer.Close()
+	pwg.Wait()
+	pmu.Lock()
+	if len(panics) > 0 {
+		out["panics"] = panics
+	}
+	pmu.Unlock()
+	return out
+}
+
+func TestVerifC09Stream(t *testing.T) {
+	lines, w, done := verifIO(t)
+	defer done()
+	enc := json.NewEncoder(w)
+	for _, line := range lines {
+		var rq c09StreamReq
+		if err := json.Unmarshal([]byte(line), &rq); err != nil {
+			_ = enc.Encode(vsObs{"error": "bad request: " + err.Error()})
+			continue
+		}
+		_ = enc.Encode(c09StreamRun(rq))
 		w.Flush()
 	}
 }
